@@ -352,6 +352,15 @@ example (pre post k1 k2 : Str) :
       doLog (maskKey (pre ++ ("<x:key>".toList ++ (k2 ++ ("</x:key>".toList ++ post))))) :=
   mask_body_spellings_independent openForm_ns closeForm_ns pre post k1 k2
 
+/-- **Truncated keygen answer** (connection lost inside the key element): everything behind `<key>` is
+masked, so the logged text is the same for all keys and whatever part of the answer arrived — as long as
+that part holds no closing tag of `key` (decidable; plain keys never do). -/
+theorem mask_body_truncated_independent_partial (pre k1 k2 : Str) (h1 : lastClose k1 = none) (h2 : lastClose k2 = none) :
+    doLog (maskKey (pre ++ (litOpen ++ k1))) = doLog (maskKey (pre ++ (litOpen ++ k2))) := by
+  rw [maskKey_truncated_independent k1 k2 pre h1 h2]
+
+example : lastClose "LUFRPT1Secret12==".toList = none ∧ lastClose "LUFRPT1Sec".toList = none := by decide
+
 /-- **F-C17e (fixed, 2766620)**: with the regexp `(?s)<key>.*</key>` a keygen answer that spells the element
 with an attribute was accepted by the parser — key `Secret12` — and logged to `.login` as it came; the
 regexp of the fix masks it. -/
@@ -442,7 +451,7 @@ def obligations : List Lean.Name := [
   ``keygen_status_log_independent, ``ha_check_transport_error_independent,   ``prefix_get_error_independent_partial, ``transport_error_reveals_key,
   ``api_key_amp_counterexample_before_fix, ``key_newline_counterexample_before_fix,
   ``mask_body_spellings_independent, ``mask_body_attributes_independent, ``key_element_spelling_counterexample_before_fix,
-  ``truncated_key_counterexample_before_fix,
+  ``truncated_key_counterexample_before_fix, ``mask_body_truncated_independent_partial,
   ``nsx_login_log_independent, ``nsx_sinks_independent,
   ``ssh_log_is_device_output_only, ``ssh_sinks_independent, ``ssh_login_log_is_expected_output,
   ``ssh_program_independent, ``ssh_session_independent, ``password_sent_only_at_password_prompt,
